@@ -1324,8 +1324,33 @@ impl Fs {
     ///
     /// This also removes "orphaned" files - files whose data was synced (via
     /// `sync_file`) but whose directory entry was not synced (via `sync_dir`).
-    /// In POSIX, both are required for a file to survive a crash.
+    /// In POSIX, both are required for a file to survive a crash. The same
+    /// holds recursively: an entry below a directory that is not itself
+    /// durable is unreachable and does not survive either.
     pub fn crash(&mut self) {
+        // A crash image is a tree. An entry can have a durable name while one
+        // of its ancestors does not: `sync_dir("/d/e")` makes `/d/e` and its
+        // entries durable, but `/d` itself only becomes durable with
+        // `sync_dir("/")`. Such an entry is unreachable after the crash. Forget
+        // its durable name first, so that it takes no part in torn writes and
+        // is removed with the other orphans below; otherwise it would survive
+        // keyed by its path and reappear, with its content, inside any
+        // directory created under the same name later. Checking every proper
+        // ancestor below the root against the durable directories is enough:
+        // the ancestors of an unreachable ancestor are ancestors of the entry
+        // as well.
+        let durable_dirs: std::collections::HashSet<PathBuf> = self
+            .persisted_dirs
+            .keys()
+            .filter(|dir| self.synced_entries.contains(*dir))
+            .cloned()
+            .collect();
+        self.synced_entries.retain(|path| {
+            path.ancestors()
+                .skip(1)
+                .all(|a| a.parent().is_none() || durable_dirs.contains(a))
+        });
+
         // Apply torn writes if block_size is configured.
         // Split-borrow: `apply_torn_writes` needs `&mut self.pending`
         // (and others) plus a separate `&mut rng`. Pulling rng out
